@@ -19,6 +19,8 @@ CONSTANTS Names,          \* namespace names, e.g. {"a", "b"}
           MaxServers,
           MaxSteps,
           AllOrNothing,
+          EagerDelete,    \* TRUE: shard deletions finish before the next configuration change (as they do in
+                          \* a coordinator whose storage nodes answer at once)
           Export          \* "none" | "steps" | "runs"
 
 VARIABLES cfg, st, used, client, cinit, fresh, steps, hist
@@ -42,6 +44,7 @@ MInit == /\ cfg = [servers |-> 1, ns |-> <<>>] /\ st = [ns |-> Empty, gen |-> 0]
 
 ConfigChange(c) ==
     /\ c # cfg
+    /\ EagerDelete => \A s \in AllShards(st) : ~s.del
     /\ cfg' = c
     /\ st' = Apply(c, st, AllOrNothing)
     /\ used' = used \cup Ids(st')
